@@ -1,5 +1,7 @@
 import VibeProof.Model.Order
 import VibeProof.Lemmas.Order
+import VibeProof.Model.SqlOrd
+import VibeProof.Props.C21
 /-
 C08 — ORDER BY, LIMIT/OFFSET and DISTINCT return correct sequences.
 
@@ -88,6 +90,89 @@ theorem C08_orderBy_rows_perm {α : Type} (rows : List (α × SortKey)) :
 example : ∀ r ∈ [("r1", [(Value.int 1, Dir.desc)]), ("r2", [(Value.null, Dir.desc)]),
       ("r3", [(Value.int 2, Dir.desc)]), ("r4", [(Value.int 1, Dir.desc)])],
     wellTyped [(.int, .desc)] r.2 = true := by decide
+
+
+/-! ### sort keys of every stored type (TIME / TIMESTAMP / DATE / NUMERIC / DOUBLE / CHAR / …)
+
+The reference comparator is the model of `SqlValue`'s ordering of C21 (`Model/SqlOrd.lean`, all 16
+variants).  `apply_order_by` compares two non-NULL keys with `partial_cmp(..).unwrap_or(Equal)`;
+whenever the partial comparison is defined (same variant, no NaN) it is `SV.cmp`. -/
+
+open VibeProof.SqlOrd in
+/-- the engine's comparison of two non-NULL keys -/
+def engineCmp (a b : SqlOrd.SV) : Ordering :=
+  match SqlOrd.SV.partialCmp a b with
+  | some o => o
+  | none => .eq
+
+def svIsNull : SqlOrd.SV → Bool
+  | .null => true
+  | _ => false
+
+/-- where the SQL comparison of two values is defined, the engine's ORDER BY comparison is the total
+order `SV.cmp` -/
+theorem C08_engine_cmp_is_total_order (a b : SqlOrd.SV) (o : Ordering)
+    (h : SqlOrd.SV.partialCmp a b = some o) : engineCmp a b = SqlOrd.SV.cmp a b := by
+  unfold engineCmp SqlOrd.SV.cmp
+  cases a <;> cases b <;> simp_all [SqlOrd.SV.partialCmp]
+
+theorem sv_cmp_laws : CmpLaws (fun _ : SqlOrd.SV => True) SqlOrd.SV.cmp where
+  swap := by intro a b _ _; exact C21.C21_cmp_swap a b
+  lt_lt := by intro a b c _ _ _ h1 h2; exact C21.C21_cmp_lt_trans a b c h1 h2
+  lt_eq := by
+    intro a b c _ _ _ h1 h2
+    have hcb : SqlOrd.SV.cmp c b = .eq := by rw [C21.C21_cmp_swap b c, h2]; rfl
+    have := C21.C21_cmp_congr c b a hcb
+    rw [C21.C21_cmp_swap a b, h1] at this
+    rw [C21.C21_cmp_swap c a, this]; rfl
+  eq_lt := by
+    intro a b c _ _ _ h1 h2
+    rw [C21.C21_cmp_congr a b c h1]; exact h2
+  eq_eq := by
+    intro a b c _ _ _ h1 h2
+    rw [C21.C21_cmp_congr a b c h1]; exact h2
+
+/-- one ORDER BY item over any stored type: NULL last in both directions, else `SV.cmp` / reversed -/
+def svKeyCmp (d : Dir) : SqlOrd.SV → SqlOrd.SV → Ordering :=
+  nullLastG svIsNull (match d with
+    | .asc => SqlOrd.SV.cmp
+    | .desc => fun a b => (SqlOrd.SV.cmp a b).swap)
+
+def svKeysLe (a b : List (SqlOrd.SV × Dir)) : Bool := lexCmp svKeyCmp a b != .gt
+
+theorem svKeyCmp_laws (d : Dir) : CmpLaws (fun _ : SqlOrd.SV => True) (svKeyCmp d) := by
+  unfold svKeyCmp
+  cases d
+  · exact nullLastG_laws sv_cmp_laws
+  · exact nullLastG_laws sv_cmp_laws.flip
+
+theorem C08_svKeysLe_trans (dirs : List Dir) (a b c : List (SqlOrd.SV × Dir))
+    (pa : shaped dirs a = true) (pb : shaped dirs b = true) (pc : shaped dirs c = true)
+    (h1 : svKeysLe a b = true) (h2 : svKeysLe b c = true) : svKeysLe a c = true :=
+  (lexCmp_laws svKeyCmp svKeyCmp_laws dirs).le_trans pa pb pc h1 h2
+
+theorem C08_svKeysLe_total (dirs : List Dir) (a b : List (SqlOrd.SV × Dir))
+    (pa : shaped dirs a = true) (pb : shaped dirs b = true) :
+    (svKeysLe a b || svKeysLe b a) = true :=
+  (lexCmp_laws svKeyCmp svKeyCmp_laws dirs).le_total pa pb
+
+/-- ORDER BY over keys of any stored type (every variant of `SqlValue`, every direction list): the
+stable sort returns a sequence that is pairwise ordered by the keys — in particular two TIME /
+TIMESTAMP keys of the same second are ordered by their nanoseconds -/
+theorem C08_orderBy_sorted_all_types {α : Type} (dirs : List Dir) (rows : List (α × List (SqlOrd.SV × Dir)))
+    (h : ∀ r ∈ rows, shaped dirs r.2 = true) :
+    (rows.mergeSort (fun x y => svKeysLe x.2 y.2)).Pairwise (fun x y => svKeysLe x.2 y.2 = true) :=
+  pairwise_mergeSort_on (fun x y => svKeysLe x.2 y.2) (fun r => shaped dirs r.2 = true)
+    (fun a b c pa pb pc => C08_svKeysLe_trans dirs a.2 b.2 c.2 pa pb pc)
+    (fun a b pa pb => C08_svKeysLe_total dirs a.2 b.2 pa pb) rows h
+
+/-- … and is a permutation of the input -/
+theorem C08_orderBy_perm_all_types {α : Type} (rows : List (α × List (SqlOrd.SV × Dir))) :
+    (rows.mergeSort (fun x y => svKeysLe x.2 y.2)).Perm rows := List.mergeSort_perm _ _
+
+/-- two times of the same second are ordered by the fraction (the comparison the seeded change
+C08-2 breaks): strictly less, in the key order used by ORDER BY -/
+example : svKeyCmp .asc (.time ⟨10, 0, 0, 100000000⟩) (.time ⟨10, 0, 0, 100000001⟩) = .lt := by decide
 
 /-! ### alias / position resolution -/
 
